@@ -174,3 +174,143 @@ Proof.
   rewrite bits_msb_concat by apply pow2_pos.
   rewrite bits_msb_zero, <- Hb, <- Hpad. reflexivity.
 Qed.
+
+(* ---- what the word sink exports (frame bodies go through MemSink<u64>) ---- *)
+Lemma firstn_exact {A} (a b : list A) n : length a = n -> firstn n (a ++ b) = a.
+Proof. intros <-. rewrite firstn_app, Nat.sub_diag, firstn_all. cbn [firstn]. apply app_nil_r. Qed.
+Lemma skipn_exact {A} (a b : list A) n : length a = n -> skipn n (a ++ b) = b.
+Proof. intros <-. rewrite skipn_app, Nat.sub_diag, skipn_all. reflexivity. Qed.
+
+Lemma bits_top_byte val : val < 2 ^ 64 -> bits_msb 8 (DIV2 val (64 - 8)) = firstn 8 (bits_msb 64 val).
+Proof.
+  intros Hv. rewrite DIV2_eq. change (64 - 8) with 56.
+  rewrite (split_hi_lo val 56) at 2.
+  change 64%nat with (8 + N.to_nat 56)%nat. rewrite bits_msb_concat by apply mod_pow2_lt.
+  symmetry. apply firstn_exact. apply bits_msb_length.
+Qed.
+
+Lemma bits_shift_byte val : val < 2 ^ 64 ->
+  bits_msb 64 (MOD2 (val * 256) 64) = skipn 8 (bits_msb 64 val) ++ repeat false 8.
+Proof.
+  intros Hv. rewrite MOD2_eq. change 256 with (2 ^ (64 - 56)). rewrite shl_mod_top by lia. change (64 - 56) with 8.
+  rewrite (split_hi_lo val 56) at 2.
+  change 64%nat with (8 + N.to_nat 56)%nat at 2. rewrite bits_msb_concat by apply mod_pow2_lt.
+  rewrite (skipn_exact (bits_msb 8 (val / 2 ^ 56))) by apply bits_msb_length.
+  replace (val mod 2 ^ 56 * 2 ^ 8) with (val mod 2 ^ 56 * 2 ^ 8 + 0) by lia.
+  change 64%nat with (N.to_nat 56 + N.to_nat 8)%nat. rewrite bits_msb_concat by apply pow2_pos.
+  rewrite bits_msb_zero. reflexivity.
+Qed.
+
+Lemma be_bytes_bits : forall (k : nat) val, val < 2 ^ 64 -> (k <= 8)%nat ->
+  bytes_bits (be_bytes k 64 val) = firstn (8 * k) (bits_msb 64 val).
+Proof.
+  induction k as [|k IH]; intros val Hv Hk; [reflexivity|].
+  cbn [be_bytes bytes_bits flat_map]. fold (bytes_bits (be_bytes k 64 (MOD2 (val * 256) 64))).
+  rewrite bits_top_byte by exact Hv.
+  rewrite IH by (try (rewrite MOD2_eq; apply mod_pow2_lt); lia).
+  rewrite bits_shift_byte by exact Hv.
+  rewrite firstn_app, skipn_length, bits_msb_length.
+  replace (8 * k - (64 - 8))%nat with 0%nat by lia. cbn [firstn]. rewrite app_nil_r.
+  replace (8 * S k)%nat with (8 + 8 * k)%nat by lia.
+  rewrite <- (firstn_skipn 8 (bits_msb 64 val)) at 3.
+  rewrite firstn_app, firstn_length, bits_msb_length. replace (Nat.min 8 64) with 8%nat by reflexivity.
+  rewrite (firstn_all2 (firstn 8 _)) by (rewrite firstn_length, bits_msb_length; lia).
+  replace (8 + 8 * k - 8)%nat with (8 * k)%nat by lia. reflexivity.
+Qed.
+
+Lemma words_bits_sval : forall ws, Forall (fun x => x < 2 ^ 64) ws ->
+  bytes_bits (flat_map (be_bytes 8 64) ws) = bits_msb (64 * length ws) (sval 64 ws).
+Proof.
+  induction ws as [|x t IH]; intros H; [reflexivity|].
+  inversion H as [|? ? Hx Ht]; subst.
+  cbn [flat_map]. unfold bytes_bits. rewrite flat_map_app. fold (bytes_bits (be_bytes 8 64 x)). fold (bytes_bits (flat_map (be_bytes 8 64) t)).
+  rewrite be_bytes_bits by (assumption || lia). rewrite firstn_all2 by (rewrite bits_msb_length; lia).
+  rewrite IH by assumption. rewrite sval_cons.
+  cbn [length]. replace (64 * S (length t))%nat with (64 + N.to_nat (64 * N.of_nat (length t)))%nat by lia.
+  rewrite bits_msb_concat by (apply sval_bound; exact Ht).
+  f_equal. f_equal. lia.
+Qed.
+
+Lemma bytes_bits_firstn : forall (k : nat) bs, bytes_bits (firstn k bs) = firstn (8 * k) (bytes_bits bs).
+Proof.
+  induction k as [|k IH]; intros bs; [reflexivity|]. destruct bs as [|b t]; [reflexivity|].
+  cbn [firstn bytes_bits flat_map]. fold (bytes_bits (firstn k t)). fold (bytes_bits t). rewrite IH.
+  replace (8 * S k)%nat with (8 + 8 * k)%nat by lia.
+  rewrite firstn_app, bits_msb_length. rewrite (firstn_all2 (bits_msb 8 b)) by (rewrite bits_msb_length; lia).
+  replace (8 + 8 * k - 8)%nat with (8 * k)%nat by lia. reflexivity.
+Qed.
+
+Lemma be_bytes_lt256 : forall k val x, val < 2 ^ 64 -> In x (be_bytes k 64 val) -> x < 256.
+Proof.
+  induction k as [|k IH]; intros val x Hv Hin; cbn [be_bytes] in Hin; [contradiction|].
+  destruct Hin as [<-|Hin].
+  - rewrite DIV2_eq. change (64 - 8) with 56. change 256 with (2 ^ (64 - 56)). apply hi_bound; [lia | exact Hv].
+  - apply (IH (MOD2 (val * 256) 64) x); [rewrite MOD2_eq; apply mod_pow2_lt | exact Hin].
+Qed.
+
+Lemma In_firstn_bw {A} (x : A) : forall n l, In x (firstn n l) -> In x l.
+Proof.
+  induction n as [|n IH]; intros l H; [destruct H|]. destruct l as [|y t]; [destruct H|].
+  cbn [firstn] in H. destruct H as [->|H]; [left; reflexivity | right; apply IH; exact H].
+Qed.
+
+Lemma firstn_repeat_le {A} (x : A) (n m : nat) : (n <= m)%nat -> firstn n (repeat x m) = repeat x n.
+Proof.
+  revert m. induction n as [|n IH]; intros m H; [reflexivity|]. destruct m as [|m]; [lia|].
+  cbn [repeat firstn]. rewrite IH by lia. reflexivity.
+Qed.
+
+Lemma ceil8_bits b : 8 * ((b + 7) / 8) = b + pad8 b.
+Proof.
+  unfold pad8. pose proof (N.div_mod b 8 ltac:(lia)) as Hb. pose proof (N.mod_upper_bound b 8 ltac:(lia)) as Hm.
+  set (q := b / 8) in *. set (m := b mod 8) in *.
+  destruct (N.eq_dec m 0) as [E|E].
+  - rewrite E in *. change ((8 - 0) mod 8) with 0. replace (b + 7) with (q * 8 + 7) by lia.
+    rewrite N.div_add_l by lia. change (7 / 8) with 0. lia.
+  - rewrite (N.mod_small (8 - m)) by lia. replace (b + 7) with ((q + 1) * 8 + (m - 1)) by lia.
+    rewrite N.div_add_l by lia. rewrite (N.div_small (m - 1)) by lia. lia.
+Qed.
+
+Theorem pack_u64_bits ops bytes :
+  forallb wf_op ops = true -> pack KU64 ops = Ok bytes ->
+  Forall (fun x => x < 256) bytes /\
+  bytes_bits bytes = ops_bitlist 0 ops ++ repeat false (N.to_nat (pad8 (ops_len 0 ops))).
+Proof.
+  intros Hwf Hp. unfold pack in Hp.
+  destruct (sink_refines_ideal KU64 ops Hwf) as (s & Hr & Hinv & Habs).
+  rewrite Hr in Hp. cbn [bind] in Hp. apply Ok_inj in Hp. subst bytes. cbn [export_bytes].
+  destruct Hinv as (H1 & H2 & H3 & H4). cbn [wordbits] in *.
+  assert (Hst : Forall (fun x => x < 2 ^ 64) (storage s)).
+  { unfold storage. rewrite <- rev_alt. apply Forall_rev. exact H3. }
+  assert (Hlen : length (storage s) = length (rst s)) by (unfold storage; rewrite <- rev_alt; apply rev_length).
+  split.
+  - apply Forall_forall. intros x Hx. apply In_firstn_bw in Hx. apply in_flat_map in Hx. destruct Hx as (wd & Hwd & Hx).
+    rewrite Forall_forall in Hst. apply (be_bytes_lt256 8 wd x); [apply Hst; exact Hwd | exact Hx].
+  - rewrite bytes_bits_firstn, words_bits_sval by exact Hst. rewrite Hlen.
+    set (total := 64 * N.of_nat (length (rst s))) in *.
+    assert (Hb : blen s = ops_len 0 ops).
+    { rewrite <- ops_bits_len. unfold ops_bits. rewrite <- Habs. reflexivity. }
+    rewrite <- ideal_run_bits, <- Habs. unfold bstr_bits, abs. cbn [blen_i bval wordbits]. fold total.
+    set (sv := sval 64 (storage s)) in *. set (pd := total - blen s) in *.
+    assert (Hsv : sv = (sv / 2 ^ pd) * 2 ^ pd + 0).
+    { pose proof (N.div_mod sv (2 ^ pd) (pow2_nz pd)) as Hd. rewrite H4 in Hd. lia. }
+    rewrite Hsv at 1.
+    replace (64 * length (rst s))%nat with (N.to_nat (blen s) + N.to_nat pd)%nat by (unfold pd, total; lia).
+    rewrite bits_msb_concat by apply pow2_pos. rewrite bits_msb_zero.
+    (* the export keeps ceil(len/8) bytes: the bits written and the padding to a byte *)
+    assert (Hpad : pad8 (blen s) <= pd).
+    { pose proof (ceil8_bits (blen s)) as Hc. unfold pd.
+      assert (Hmul : (blen s + pad8 (blen s)) mod 8 = 0) by (rewrite <- Hc, N.mul_comm; apply N.mod_mul; lia).
+      assert (Htot : total mod 8 = 0) by (unfold total; replace (64 * N.of_nat (length (rst s))) with ((8 * N.of_nat (length (rst s))) * 8) by lia; apply N.mod_mul; lia).
+      pose proof (pad8_spec (blen s)) as [_ Hlt].
+      (* total is a multiple of 8 that is >= blen, hence >= the next multiple of 8 *)
+      pose proof (N.div_mod total 8 ltac:(lia)) as Ht. rewrite Htot, N.add_0_r in Ht.
+      pose proof (N.div_mod (blen s + pad8 (blen s)) 8 ltac:(lia)) as Hn. rewrite Hmul, N.add_0_r in Hn.
+      set (a := total / 8) in *. set (c := (blen s + pad8 (blen s)) / 8) in *.
+      assert (c <= a) by nia. nia. }
+    replace (8 * N.to_nat ((blen s + 7) / 8))%nat with (N.to_nat (blen s) + N.to_nat (pad8 (blen s)))%nat
+      by (pose proof (ceil8_bits (blen s)); lia).
+    rewrite firstn_app, bits_msb_length. rewrite (firstn_all2 (bits_msb _ _)) by (rewrite bits_msb_length; lia).
+    replace (N.to_nat (blen s) + N.to_nat (pad8 (blen s)) - N.to_nat (blen s))%nat with (N.to_nat (pad8 (blen s))) by lia.
+    rewrite firstn_repeat_le by lia. rewrite <- Hb. reflexivity.
+Qed.
